@@ -218,6 +218,69 @@ def make_zhit_harness(n_points: int):
     return harness
 
 
+# --------------------------------------------------------------------------- circuit fitting driver
+METHOD_OPTS = ("leastsq", "cg", "auto", ["leastsq"], ["leastsq", "nelder"], ["leastsq", "nelder", "powell"], "bogus", ["leastsq", "bogus"], 5)
+WEIGHT_OPTS = ("boukamp", "auto", ["boukamp"], ["boukamp", "unity"], ["boukamp", "unity", "modulus"], "bogus", ["unity", "bogus"], None)
+
+
+def make_fit_harness():
+    def harness(eng):
+        import pyimpspec.analysis.fitting as fit
+        from pyimpspec import parse_cdc
+        from pyimpspec.exceptions import FittingError
+        from .c16 import FakeParameters, FakeFit
+        method = METHOD_OPTS[eng.choice(len(METHOD_OPTS), "method")]
+        weight = WEIGHT_OPTS[eng.choice(len(WEIGHT_OPTS), "weight")]
+        num_procs = (1, 3)[eng.choice(2, "num_procs")]
+        data = _data(4)
+        calls: List[str] = []
+
+        def worker(args):
+            calls.append("%s/%s" % (args[3], args[4]))
+            return (parse_cdc("R{R=%d}" % (100 + len(calls))), float(len(calls)), FakeFit(FakeParameters()), args[3], args[4], "")
+
+        class FakePool:
+            def __init__(self, *a, **k):
+                pass
+
+            def __enter__(self):
+                return self
+
+            def __exit__(self, *a):
+                return False
+
+            def imap(self, fn, args, chunksize=1):
+                items = [fn(a) for a in args]
+
+                class It:
+                    def next(self, timeout=None):
+                        if not items:
+                            raise StopIteration
+                        return items.pop(0)
+                return It()
+        saved = (fit._fit_process, fit.Pool, fit._extract_parameters)
+        fit._fit_process, fit.Pool = worker, FakePool
+        fit._extract_parameters = lambda circuit, f: {}
+        try:
+            with Capture(eng) as cap:
+                ok, res = call(fit.fit_circuit, parse_cdc("R"), data, method=method, weight=weight, num_procs=num_procs)
+            cap.check("fit")
+        finally:
+            fit._fit_process, fit.Pool, fit._extract_parameters = saved
+        desc = lambda: "method=%r weight=%r num_procs=%d -> %r after %r" % (method, weight, num_procs, res, calls[:3])
+        if ok:
+            eng.check(isinstance(res, fit.FitResult), "fit:returns a result")
+            n_m = len(fit._METHODS) if method == "auto" else (len(method) if isinstance(method, list) else 1)
+            n_w = len(fit._WEIGHT_FUNCTIONS) if weight == "auto" else (len(weight) if isinstance(weight, list) else 1)
+            eng.check(len(calls) == n_m * n_w, "fit:every method/weight combination is tried once", lambda: "%d fits for %d x %d" % (len(calls), n_m, n_w))
+        elif isinstance(res, FittingError):
+            pass
+        else:
+            eng.check(isinstance(res, (TypeError, ValueError)) and not calls, "fit:refused up front or completed", desc)
+        eng.reached("fit")
+    return harness
+
+
 # --------------------------------------------------------------------------- Kramers-Kronig driver
 TESTS = ("complex", "real", "imaginary", "complex-inv", "real-inv", "imaginary-inv", "cnls", "bogus")
 
@@ -394,6 +457,10 @@ def obligations(tier: str):
                               bounds="%d points; tests {complex, cnls} x num_RCs {auto, [2,3]} x rapid x num_procs {1,3} x num_F_ext_evaluations %s x "
                                      "pairs of log F_ext limits (valid and invalid) x located minima at an end / a grid point" % (n, "{-14,-10,-9,0,9,10,11,14}" if tier == "quick" else "-14..14"), functions=kf, stubs=kstubs,
                               expect_reach=["kk"], max_paths=3000000))
+    import pyimpspec.analysis.fitting as fit
+    obs.append(Obligation("fit.options", make_fit_harness(), bounds="fit_circuit driver: method %r x weight %r x num_procs {1,3}; the worker is a stub" % (METHOD_OPTS, WEIGHT_OPTS),
+                          functions=[fit.fit_circuit, fit._convert_intermediate_result], stubs=["_fit_process returns a fixed-shape result; Pool.imap keeps submission order"],
+                          expect_reach=["fit"], max_paths=100000))
     for o in obs:
         o.replay = o.harness
     return obs
@@ -407,7 +474,7 @@ EXPLANATION = (
 )
 ASSUMPTIONS = ["numerical kernels are replaced by shape-correct stubs: failures inside real numerics are outside the claim",
                "lmfit.minimize calls the residual at most max_nfev+1 times"]
-OUTSIDE = ["fit_circuit and calculate_drt drivers", "failures inside the real numerical kernels (e.g. splines on too few points)"]
+OUTSIDE = ["the calculate_drt drivers; fit_circuit options other than method / weight / num_procs", "failures inside the real numerical kernels (e.g. splines on too few points)"]
 
 
 def replay(obligation: str, witness):
